@@ -660,6 +660,144 @@ theorem fieldRT_byte_array (P : Profile) (hwf : ProfileWF P = true) (dm : DefMsg
     exact this xs hx
   rw [hparse]
 
+theorem setInt_dec_enc (arch : Endian) (w : Nat) (hw : w = 1 ∨ w = 2 ∨ w = 4) (z : Int)
+    (hlo : -(2 ^ (8 * w - 1) : Int) ≤ z) (hhi : z < (2 ^ (8 * w - 1) : Int)) :
+    setInt (.sc (.i (8 * w))) ((arch.dec (arch.enc w (toUnsigned (8 * w) z)) : Nat) : Int) = some (.i z) := by
+  rw [dec_enc]
+  rcases hw with rfl | rfl | rfl
+  all_goals
+    simp only [setInt, toSigned, toUnsigned, Nat.reducePow, Nat.reduceSub, Int.reducePow, Nat.reduceMul, Option.some.injEq,
+      Val.i.injEq] at *
+    apply Fit.Props.C02.ite_eq_of <;> intro h <;> omega
+
+/-- **An array field of signed elements, end to end** (full length, every element within the
+    element type): two's complement out, two's complement back. -/
+theorem fieldRT_signed_array (P : Profile) (hwf : ProfileWF P = true) (dm : DefMsg) (pf : PField) (w : Nat) (zs : List Int)
+    (hgf : P.getField dm.global pf.num = some pf)
+    (hnat : tcKind pf.tcode = .native) (harr : tcArray pf.tcode = true)
+    (hw : (w = 1 ∧ tcBase pf.tcode = Base.sint8) ∨ (w = 2 ∧ tcBase pf.tcode = Base.sint16) ∨
+          (w = 4 ∧ tcBase pf.tcode = Base.sint32))
+    (hlen : zs.length = pf.length)
+    (hz : ∀ z ∈ zs, -(2 ^ (8 * w - 1) : Int) ≤ z ∧ z < (2 ^ (8 * w - 1) : Int)) :
+    FieldRT P dm pf (.sl (.i (8 * w))) (.is (some zs)) := by
+  intro msg ts part hpart
+  obtain ⟨pm, hpm, hfw⟩ := getField_wf P hwf _ _ _ hgf
+  have facts := fieldWF_facts pm pf hfw
+  obtain ⟨k, hl, hslot⟩ := facts.slot
+  obtain ⟨hsc, hns⟩ := signed_slot_width (tcBase pf.tcode) w hw
+  have hsize : Base.size (tcBase pf.tcode) = w := by
+    rcases hw with ⟨h1, h⟩ | ⟨h1, h⟩ | ⟨h1, h⟩ <;> (subst h1; rw [h]; decide)
+  have hnb : tcBase pf.tcode ≠ Base.byte := by
+    rcases hw with ⟨_, h⟩ | ⟨_, h⟩ | ⟨_, h⟩ <;> (rw [h]; decide)
+  have hw3 : w = 1 ∨ w = 2 ∨ w = 4 := by rcases hw with ⟨h, _⟩ | ⟨h, _⟩ | ⟨h, _⟩ <;> simp [h]
+  have hk : k = .sl (.i (8 * w)) := by
+    unfold slotOfType at hslot
+    rw [hnat] at hslot
+    simp only [hsc, harr, ↓reduceIte, Option.some.injEq] at hslot
+    exact hslot.symm
+  subst hk
+  have hwpos : 0 < w := by rcases hw3 with h | h | h <;> omega
+  rw [writeField_signed_short dm.arch pf w (some zs) harr hns hnat hsize (by simp [hlen])] at hpart
+  simp only [Option.getD_some, hlen, Nat.sub_self, List.replicate_zero, List.flatten_nil, List.append_nil] at hpart
+  cases hpart
+  have hmapeq : (zs.map fun z => dm.arch.enc w (toUnsigned (8 * w) z)) =
+      (zs.map (toUnsigned (8 * w))).map (dm.arch.enc w) := by
+    rw [List.map_map]; rfl
+  rw [hmapeq]
+  have hplen : (((zs.map (toUnsigned (8 * w))).map (dm.arch.enc w)).flatten).length = w * pf.length := by
+    have : ∀ l : List Nat, ((l.map (dm.arch.enc w)).flatten).length = w * l.length := by
+      intro l
+      induction l with
+      | nil => simp
+      | cons a as ih =>
+        simp only [List.map_cons, List.flatten_cons, List.length_append, enc_length, ih, List.length_cons, Nat.mul_succ]
+        omega
+    rw [this, List.length_map, hlen]
+  have hsz : szOf pf = w * pf.length := by
+    unfold szOf
+    simp only [hns, ↓reduceIte, harr, hsize]
+    have := facts.lenB (Or.inl harr)
+    rw [hsize] at this
+    omega
+  refine ⟨ts, ?_⟩
+  unfold applyField
+  simp only [fdOf, hgf, hpm, hl, hnat, harr]
+  simp only [Bool.not_true, Bool.false_eq_true, ↓reduceIte, Bool.not_false, and_false, false_and]
+  have htake : (((zs.map (toUnsigned (8 * w))).map (dm.arch.enc w)).flatten).take (szOf pf) =
+      ((zs.map (toUnsigned (8 * w))).map (dm.arch.enc w)).flatten := by
+    apply List.take_of_length_le; rw [hplen, hsz]
+  rw [htake]
+  have hparse : parseFitFieldArray dm.arch ⟨pf.num, szOf pf, tcBase pf.tcode⟩ (.sl (.i (8 * w)))
+      ((zs.map (toUnsigned (8 * w))).map (dm.arch.enc w)).flatten = .ok (some (.is (some zs))) := by
+    unfold parseFitFieldArray
+    simp only [hnb, ↓reduceIte, hsize]
+    have hw0 : ¬ w = 0 := by omega
+    simp only [hw0, ↓reduceIte]
+    rw [chunks_encodings dm.arch w hwpos _ _ (Nat.le_refl _)]
+    have hnun : ¬ (tcBase pf.tcode = Base.uint8 ∨ tcBase pf.tcode = Base.uint8z ∨ tcBase pf.tcode = Base.enum ∨
+        tcBase pf.tcode = Base.uint16 ∨ tcBase pf.tcode = Base.uint16z ∨ tcBase pf.tcode = Base.uint32 ∨
+        tcBase pf.tcode = Base.uint32z) := by
+      rcases hw with ⟨_, h⟩ | ⟨_, h⟩ | ⟨_, h⟩ <;> (rw [h]; decide)
+    have hsi : (tcBase pf.tcode = Base.sint8 ∨ tcBase pf.tcode = Base.sint16 ∨ tcBase pf.tcode = Base.sint32) := by
+      rcases hw with ⟨_, h⟩ | ⟨_, h⟩ | ⟨_, h⟩ <;> simp [h]
+    simp only [hnun, hsi, ↓reduceIte]
+    rw [List.mapM_map, List.mapM_map]
+    have hm : ∀ l : List Int, (∀ z ∈ l, -(2 ^ (8 * w - 1) : Int) ≤ z ∧ z < (2 ^ (8 * w - 1) : Int)) →
+        (l.mapM ((fun e => setInt (.sc (.i (8 * w))) ((dm.arch.dec e : Nat) : Int)) ∘ dm.arch.enc w ∘ toUnsigned (8 * w))) =
+          some (l.map Val.i) := by
+      intro l hl
+      induction l with
+      | nil => rfl
+      | cons a as ih =>
+        rw [List.mapM_cons, ih (fun x hx' => hl x (List.mem_cons_of_mem _ hx'))]
+        have ha := hl a (List.mem_cons_self ..)
+        simp only [Function.comp]
+        rw [setInt_dec_enc dm.arch w hw3 a ha.1 ha.2]
+        rfl
+    simp only [Function.comp_def] at hm ⊢
+    rw [hm zs hz]
+    simp only
+    congr 4
+    clear hm hz hlen hplen htake hmapeq
+    induction zs with
+    | nil => rfl
+    | cons a as ih => simp only [List.map_cons, List.filterMap_cons, ih]
+  rw [hparse]
+
+/-- signed arrays no longer than the profile length, and nil arrays as fillers -/
+theorem fieldRTG_signed_array (P : Profile) (hwf : ProfileWF P = true) (dm : DefMsg) (pf : PField) (w : Nat)
+    (zs : Option (List Int)) (hgf : P.getField dm.global pf.num = some pf)
+    (hnat : tcKind pf.tcode = .native) (harr : tcArray pf.tcode = true)
+    (hw : (w = 1 ∧ tcBase pf.tcode = Base.sint8) ∨ (w = 2 ∧ tcBase pf.tcode = Base.sint16) ∨
+          (w = 4 ∧ tcBase pf.tcode = Base.sint32))
+    (hlen : (zs.getD []).length ≤ pf.length)
+    (hz : ∀ z ∈ zs.getD [], -(2 ^ (8 * w - 1) : Int) ≤ z ∧ z < (2 ^ (8 * w - 1) : Int)) (inv : Val) :
+    FieldRTG P dm pf (.sl (.i (8 * w))) (.is zs) inv (padVal pf (.is zs)) := by
+  intro msg ts part _ hpart
+  obtain ⟨_, hns⟩ := signed_slot_width (tcBase pf.tcode) w hw
+  have hsize : Base.size (tcBase pf.tcode) = w := by
+    rcases hw with ⟨h1, h⟩ | ⟨h1, h⟩ | ⟨h1, h⟩ <;> (subst h1; rw [h]; decide)
+  have hinv : toUnsigned (8 * w) (Base.invalidNat (tcBase pf.tcode) : Nat) = Base.invalidNat (tcBase pf.tcode) := by
+    rcases hw with ⟨h1, h⟩ | ⟨h1, h⟩ | ⟨h1, h⟩ <;> (subst h1; rw [h]; decide)
+  have hinvr : -(2 ^ (8 * w - 1) : Int) ≤ ((Base.invalidNat (tcBase pf.tcode) : Nat) : Int) ∧
+      ((Base.invalidNat (tcBase pf.tcode) : Nat) : Int) < (2 ^ (8 * w - 1) : Int) := by
+    rcases hw with ⟨h1, h⟩ | ⟨h1, h⟩ | ⟨h1, h⟩ <;> (subst h1; rw [h]; decide)
+  rw [writeField_pad_signed dm.arch pf w zs harr hns hnat hsize hlen hinv] at hpart
+  have hfull := fieldRT_signed_array P hwf dm pf w
+    (zs.getD [] ++ List.replicate (pf.length - (zs.getD []).length) ((Base.invalidNat (tcBase pf.tcode) : Nat) : Int))
+    hgf hnat harr hw (by simp only [List.length_append, List.length_replicate]; omega)
+    (by
+      intro x hxm
+      rw [List.mem_append] at hxm
+      rcases hxm with h | h
+      · exact hz x h
+      · rw [(List.mem_replicate.mp h).2]; exact hinvr)
+  have e : padVal pf (.is zs) = .is (some (zs.getD [] ++
+      List.replicate (pf.length - (zs.getD []).length) ((Base.invalidNat (tcBase pf.tcode) : Nat) : Int))) := by
+    simp only [padVal, harr, ↓reduceIte]
+  rw [e]
+  exact hfull msg ts part hpart
+
 /-! ### arrays shorter than the profile length, and nil arrays written as fillers -/
 
 /-- **An array of unsigned elements no longer than the profile length** (or a nil array written
@@ -915,6 +1053,15 @@ def arrRT (pf : PField) (k : SlotKind) (v : Val) : Bool :=
     tcKind pf.tcode == .native && tcArray pf.tcode && decide ((xs.getD []).length ≤ pf.length) &&
       (xs.getD []).all (fun x => decide (x < 4294967296)) &&
       (tcBase pf.tcode == Base.uint32 || tcBase pf.tcode == Base.uint32z)
+  | .sl (.i 8), .is zs =>
+    tcKind pf.tcode == .native && tcArray pf.tcode && decide ((zs.getD []).length ≤ pf.length) &&
+      (zs.getD []).all (fun z => decide (-128 ≤ z ∧ z < 128)) && tcBase pf.tcode == Base.sint8
+  | .sl (.i 16), .is zs =>
+    tcKind pf.tcode == .native && tcArray pf.tcode && decide ((zs.getD []).length ≤ pf.length) &&
+      (zs.getD []).all (fun z => decide (-32768 ≤ z ∧ z < 32768)) && tcBase pf.tcode == Base.sint16
+  | .sl (.i 32), .is zs =>
+    tcKind pf.tcode == .native && tcArray pf.tcode && decide ((zs.getD []).length ≤ pf.length) &&
+      (zs.getD []).all (fun z => decide (-2147483648 ≤ z ∧ z < 2147483648)) && tcBase pf.tcode == Base.sint32
   | _, _ => false
 
 theorem arrRT_sound (P : Profile) (hwf : ProfileWF P = true) (dm : DefMsg) (pf : PField) (k : SlotKind) (v : Val)
@@ -939,6 +1086,18 @@ theorem arrRT_sound (P : Profile) (hwf : ProfileWF P = true) (dm : DefMsg) (pf :
     obtain ⟨⟨⟨⟨h1, h2⟩, h3⟩, h4⟩, h5⟩ := h
     exact fieldRTG_unsigned_array P hwf dm pf 4 _ hgf h1 h2 (Or.inr (Or.inr ⟨rfl, h5⟩)) h3
       (fun x hx => by have := h4 x hx; omega) inv
+  · simp only [Bool.and_eq_true, beq_iff_eq, decide_eq_true_eq, List.all_eq_true] at h
+    obtain ⟨⟨⟨⟨h1, h2⟩, h3⟩, h4⟩, h5⟩ := h
+    exact fieldRTG_signed_array P hwf dm pf 1 _ hgf h1 h2 (Or.inl ⟨rfl, h5⟩) h3
+      (fun z hz => by have := h4 z hz; omega) inv
+  · simp only [Bool.and_eq_true, beq_iff_eq, decide_eq_true_eq, List.all_eq_true] at h
+    obtain ⟨⟨⟨⟨h1, h2⟩, h3⟩, h4⟩, h5⟩ := h
+    exact fieldRTG_signed_array P hwf dm pf 2 _ hgf h1 h2 (Or.inr (Or.inl ⟨rfl, h5⟩)) h3
+      (fun z hz => by have := h4 z hz; omega) inv
+  · simp only [Bool.and_eq_true, beq_iff_eq, decide_eq_true_eq, List.all_eq_true] at h
+    obtain ⟨⟨⟨⟨h1, h2⟩, h3⟩, h4⟩, h5⟩ := h
+    exact fieldRTG_signed_array P hwf dm pf 4 _ hgf h1 h2 (Or.inr (Or.inr ⟨rfl, h5⟩)) h3
+      (fun z hz => by have := h4 z hz; omega) inv
   · cases h
 
 /-- on the values of `valRT` padding changes nothing: scalars are not arrays, and the arrays of
@@ -956,6 +1115,7 @@ theorem valRT_pad (pf : PField) (k : SlotKind) (v : Val) (h : valRT pf k v = tru
         | cases h
         | (rename_i e; cases e; simp only [Bool.and_eq_true, decide_eq_true_eq] at h; omega)
         | (rename_i e; cases e; done)
+  | is xs => unfold valRT at h; split at h <;> first | cases h | (rename_i e; cases e; done)
   | _ => unfold padVal; split <;> rfl
 
 /-- the empty string in a string field: what a group definition writes for a member that leaves the
@@ -1103,12 +1263,16 @@ theorem gen_containers_ok : ∀ c ∈ Gen.profile.containers, containerOK c = tr
     length (a nil array counts as empty); any other value unchanged. This is the normal form behind
     "arrays are compared up to trailing invalid padding". -/
 theorem padVal_spec (pf : PField) (v : Val) :
-    padVal pf v = v ∨ ∃ xs, v = .us xs ∧ padVal pf v = .us (some (xs.getD [] ++
-      List.replicate (pf.length - (xs.getD []).length) (Base.invalidNat (tcBase pf.tcode)))) := by
+    padVal pf v = v ∨
+    (∃ xs, v = .us xs ∧ padVal pf v = .us (some (xs.getD [] ++
+      List.replicate (pf.length - (xs.getD []).length) (Base.invalidNat (tcBase pf.tcode))))) ∨
+    (∃ zs, v = .is zs ∧ padVal pf v = .is (some (zs.getD [] ++
+      List.replicate (pf.length - (zs.getD []).length) ((Base.invalidNat (tcBase pf.tcode) : Nat) : Int)))) := by
   unfold padVal
   split
   · cases v with
-    | us xs => exact Or.inr ⟨xs, rfl, rfl⟩
+    | us xs => exact Or.inr (Or.inl ⟨xs, rfl, rfl⟩)
+    | is zs => exact Or.inr (Or.inr ⟨zs, rfl, rfl⟩)
     | _ => exact Or.inl rfl
   · exact Or.inl rfl
 
@@ -1170,21 +1334,21 @@ def mkMsg (n : Nat) (sets : List (Nat × Val)) : Msg :=
 
 /-- a settings file: two user_profile messages with different valid fields — a name in the first
     only — so the slice gets a union definition and each record carries invalid fillers (among them
-    the empty string); one hrm_profile message; two device_settings messages — the first with an array
-    shorter than the profile length and a full-length one, the second without either, so that both are
+    the empty string); one hrm_profile message; two device_settings messages — the first with an unsigned and a signed
+    array shorter than the profile length and a full-length one, the second without either, so that both are
     written as fillers in its record -/
 def exampleSettings (sz : Nat) : FileSt :=
   { hdr := { size := sz, proto := 0x20, profile := 2115, dtype := fitTag },
     fileId := mkMsg 0 [(0, .u 2), (1, .u 1), (2, .u 7), (3, .u 12345), (4, .t 1000 0 0)],
     cidx := some 1,
     slots := [[mkMsg 3 [(1, .s [65, 66]), (2, .u 1), (3, .u 30)], mkMsg 3 [(3, .u 41), (4, .u 180)]], [mkMsg 4 [(0, .u 1)]], [], [],
-              [mkMsg 2 [(2, .us (some [3600])), (8, .us (some [513]))], mkMsg 2 [(0, .u 1)]]] }
+              [mkMsg 2 [(2, .us (some [3600])), (4, .is (some [-4])), (8, .us (some [513]))], mkMsg 2 [(0, .u 1)]]] }
 
 /-- what comes back for `exampleSettings`: the arrays padded with invalid values -/
 def exampleSettingsBack : List (List Msg) :=
   [[mkMsg 3 [(1, .s [65, 66]), (2, .u 1), (3, .u 30)], mkMsg 3 [(3, .u 41), (4, .u 180)]], [mkMsg 4 [(0, .u 1)]], [], [],
-   [mkMsg 2 [(2, .us (some [3600, 4294967295])), (8, .us (some [513]))],
-    mkMsg 2 [(0, .u 1), (2, .us (some [4294967295, 4294967295])), (8, .us (some [65535]))]]]
+   [mkMsg 2 [(2, .us (some [3600, 4294967295])), (4, .is (some [-4, 127])), (8, .us (some [513]))],
+    mkMsg 2 [(0, .u 1), (2, .us (some [4294967295, 4294967295])), (4, .is (some [127, 127])), (8, .us (some [65535]))]]]
 
 def encodesSmall (arch : Endian) (f : FileSt) : Bool :=
   match encode Gen.profile arch f with
